@@ -29,11 +29,13 @@ cd /verif
 git -C /repo worktree remove --force $WT >/dev/null 2>&1
 rm -f /tmp/sv_suite_$P$K.log /tmp/sv_demo_$P$K.log /tmp/sv_demo2_$P$K.log
 [ $CONF -eq 0 ] || exit 3
-# run our check against the change applied to /repo
-git -C /repo status --short | grep -q . && { echo "repo not clean"; exit 2; }
-git -C /repo apply $DIFF
-OUT=$(timeout 3000 ./bin/gosmt check $P --tier $TIER 2>&1); RC=$?
-git -C /repo checkout -- .
+# run our check against the change applied to a scratch worktree (GOSMT_REPO), /repo stays untouched
+RW=/tmp/sv_run_${P}_$K
+git -C /repo worktree remove --force $RW >/dev/null 2>&1
+git -C /repo worktree add --detach $RW HEAD >/dev/null 2>&1 || { echo "worktree failed"; exit 2; }
+git -C $RW apply $DIFF
+OUT=$(GOSMT_REPO=$RW GOSMT_EVIDENCE=/tmp/sv_evidence GOSMT_REPLAYS=/tmp/sv_replays timeout ${SEED_TIMEOUT:-3000} ./bin/gosmt check $P --tier $TIER 2>&1); RC=$?
+git -C /repo worktree remove --force $RW >/dev/null 2>&1
 echo "$OUT" | grep -E "^VIOLATION|^check |CHECK-BROKEN|^KNOWN" | cut -c1-300
 echo "CHECK-EXIT=$RC"
 D=/verif/seeded/${P}_$K; mkdir -p $D
@@ -41,6 +43,11 @@ cp $DIFF $D/patch.diff; cp $DEMO $D/demo_test.go
 python3 - "$META" "$D/meta.json" "$RC" "$TIER" <<PY
 import json,sys
 m=json.load(open(sys.argv[1]))
+try:
+    old=json.load(open(sys.argv[2]))
+    if "note" in old: m["note"]=old["note"]
+except Exception:
+    pass
 m["confirmed_by_us"]="applied in a scratch worktree: existing suite passes with the change, demo fails with it and passes without"
 m["our_check"]={"tier":sys.argv[4],"exit":int(sys.argv[3]),"detected":int(sys.argv[3])==1}
 json.dump(m,open(sys.argv[2],"w"),indent=1)
